@@ -53,7 +53,121 @@ func c10Tok(b []byte) uint64 {
 			return uint64(id)
 		}
 	}
+	for id := 1; id <= c10MaxTok; id++ {
+		if string(b) == c10Text(id) {
+			return uint64(c10TextBase + id)
+		}
+	}
 	return 999999
+}
+
+// text values (a FileClient's "TextValue" is a JSON string): token c10TextBase+id; id 1 is two blanks
+const c10TextBase = 100
+
+func c10Text(id int) string {
+	if id == 1 {
+		return "  "
+	}
+	return fmt.Sprintf(" text value #%d\n\tzwölf ", id)
+}
+
+// ---- the file behind a FileClient ----
+
+// one member of the file's JSON object.  Usable kinds: value, text, both (the text wins).  Kinds that are NOT a
+// usable secret (the name is absent for the store): ver0 (a value, version 0), noversion (a text, no version),
+// novalue (a version, neither Value nor TextValue), blanktext (TextValue ""), emptyvalue (Value ""), nullvalue
+// (Value null), mistyped (the value under misspelled keys), nullsecret ("secret": null), nosecret ({}), nullentry
+// (null).  vernegative: a negative version does not decode at all - NewFileClient must refuse the file.
+type c10FileEnt struct {
+	Name string `json:"name"`
+	Kind string `json:"kind"`
+	Ver  uint32 `json:"ver,omitempty"`
+	Val  int    `json:"val,omitempty"`  // token of Value
+	TVal int    `json:"tval,omitempty"` // id of TextValue
+}
+
+var c10FileUnusable = []string{"ver0", "noversion", "novalue", "blanktext", "emptyvalue", "nullvalue", "mistyped", "nullsecret", "nosecret", "nullentry"}
+
+func c10FileJSON(ents []c10FileEnt) []byte {
+	var sb strings.Builder
+	sb.WriteByte('{')
+	for i, e := range ents {
+		if i > 0 {
+			sb.WriteByte(',')
+		}
+		k, _ := json.Marshal(e.Name)
+		sb.Write(k)
+		sb.WriteByte(':')
+		b64 := base64.StdEncoding.EncodeToString(c10Val(e.Val))
+		txt, _ := json.Marshal(c10Text(e.TVal))
+		switch e.Kind {
+		case "value":
+			fmt.Fprintf(&sb, `{"secret":{"Value":"%s","Version":%d}}`, b64, e.Ver)
+		case "text":
+			fmt.Fprintf(&sb, `{"secret":{"TextValue":%s,"Version":%d}}`, txt, e.Ver)
+		case "both":
+			fmt.Fprintf(&sb, `{"secret":{"Value":"%s","TextValue":%s,"Version":%d}}`, b64, txt, e.Ver)
+		case "ver0":
+			fmt.Fprintf(&sb, `{"secret":{"Value":"%s","Version":0}}`, b64)
+		case "noversion":
+			fmt.Fprintf(&sb, `{"secret":{"TextValue":%s}}`, txt)
+		case "novalue":
+			fmt.Fprintf(&sb, `{"secret":{"Version":%d}}`, e.Ver)
+		case "blanktext":
+			fmt.Fprintf(&sb, `{"secret":{"TextValue":"","Version":%d}}`, e.Ver)
+		case "emptyvalue":
+			fmt.Fprintf(&sb, `{"secret":{"Value":"","Version":%d}}`, e.Ver)
+		case "nullvalue":
+			fmt.Fprintf(&sb, `{"secret":{"Value":null,"TextValue":null,"Version":%d}}`, e.Ver)
+		case "mistyped":
+			fmt.Fprintf(&sb, `{"secret":{"Valu":"%s","Text":%s,"Version":%d}}`, b64, txt, e.Ver)
+		case "nullsecret":
+			sb.WriteString(`{"secret":null}`)
+		case "nosecret":
+			sb.WriteString(`{}`)
+		case "vernegative":
+			fmt.Fprintf(&sb, `{"secret":{"Value":"%s","Version":-%d}}`, b64, e.Ver)
+		default: // nullentry
+			sb.WriteString("null")
+		}
+	}
+	sb.WriteByte('}')
+	return []byte(sb.String())
+}
+
+// the member as NewFileClient decodes it, for the model: Fe secret version value text
+func c10CoqFileEnt(e c10FileEnt) string {
+	val, txt := fmt.Sprintf("(Some %d)", e.Val), fmt.Sprintf("(Some %d)", c10TextBase+e.TVal)
+	fe := "Fe false 0 None None"
+	switch e.Kind {
+	case "value":
+		fe = fmt.Sprintf("Fe true %d %s None", e.Ver, val)
+	case "text":
+		fe = fmt.Sprintf("Fe true %d None %s", e.Ver, txt)
+	case "both":
+		fe = fmt.Sprintf("Fe true %d %s %s", e.Ver, val, txt)
+	case "ver0":
+		fe = fmt.Sprintf("Fe true 0 %s None", val)
+	case "noversion":
+		fe = fmt.Sprintf("Fe true 0 None %s", txt)
+	case "novalue", "blanktext", "emptyvalue", "nullvalue", "mistyped":
+		fe = fmt.Sprintf("Fe true %d None None", e.Ver)
+	}
+	return fmt.Sprintf("(%s,%s)", coqBytes([]byte(e.Name)), fe)
+}
+
+// c10File: the file of a client=file scenario (older inputs gave it as scripts: a tail with a version = a usable value)
+func c10File(in c10Input) []c10FileEnt {
+	if len(in.File) > 0 || in.Client != "file" {
+		return in.File
+	}
+	var out []c10FileEnt
+	for _, s := range in.Scripts {
+		if s.Tail.Ver != 0 {
+			out = append(out, c10FileEnt{Name: s.Name, Kind: "value", Ver: s.Tail.Ver, Val: s.Tail.Val})
+		}
+	}
+	return out
 }
 
 // ---- inputs ----
@@ -103,7 +217,8 @@ type c10Input struct {
 	Cache      string          `json:"cache"` // none | empty | garbage | doc
 	CacheDoc   []c10CacheEnt   `json:"cache_doc,omitempty"`
 	AgeS       int64           `json:"age_s,omitempty"`
-	Scripts    []c10Script     `json:"scripts,omitempty"` // for client=file: the file's contents (tail only)
+	Scripts    []c10Script     `json:"scripts,omitempty"`
+	File       []c10FileEnt    `json:"file,omitempty"` // client=file: the members of the file's JSON object, in document order
 	Strict     bool            `json:"strict,omitempty"`
 	DeadlineUs int64           `json:"deadline_us"` // relative to the call; <0 none; 0 = cancelled before the call
 	StartMs    int64           `json:"start_ms,omitempty"`
@@ -571,18 +686,22 @@ func c10Scenario(t *testing.T, in c10Input, work string, idx int, probe bool) (o
 	case "http":
 		cfg.Client = setec.Client{Server: "http://setec.invalid", DoHTTP: cli.transport}
 	case "file":
-		doc := map[string]any{}
-		for _, s := range in.Scripts {
-			if s.Tail.Ver != 0 {
-				doc[s.Name] = map[string]any{"secret": map[string]any{"Value": c10Val(s.Tail.Val), "Version": s.Tail.Ver}}
-			}
-		}
-		bs, _ := json.Marshal(doc)
+		bs := c10FileJSON(c10File(in))
 		path := filepath.Join(work, fmt.Sprintf("c10-file-%d.json", idx%8))
 		if err := os.WriteFile(path, bs, 0600); err != nil {
 			return obs, &DirectVerdict{OK: false, What: "write file: " + err.Error()}
 		}
 		fc, err := setec.NewFileClient(path)
+		for _, e := range c10File(in) {
+			if e.Kind == "vernegative" {
+				// a negative version is not a version at all: the file must be refused, there is no client to build a store on
+				obs.Class = "nofileclient"
+				if err == nil {
+					return obs, &DirectVerdict{OK: false, What: "NewFileClient accepted a file with a negative version"}
+				}
+				return obs, &DirectVerdict{OK: true, What: "NewFileClient refused the file"}
+			}
+		}
 		if err != nil {
 			return obs, &DirectVerdict{OK: false, What: "NewFileClient: " + err.Error()}
 		}
@@ -775,6 +894,18 @@ func c10CoqReqs(rs []c10Req) string {
 }
 
 func c10Coq(in c10Input, obs c10Obs) string {
+	if in.Client == "file" {
+		fe := c10File(in)
+		parts := make([]string, len(fe))
+		for i, e := range fe {
+			parts[i] = c10CoqFileEnt(e)
+		}
+		return "FileCase " + coqList(parts) + " (" + c10CoqCase(in, obs) + ")"
+	}
+	return c10CoqCase(in, obs)
+}
+
+func c10CoqCase(in c10Input, obs c10Obs) string {
 	var sb strings.Builder
 	hasCache := in.Cache != "none"
 	fmt.Fprintf(&sb, "Case (Cf %s %s %s %s %s %s) ", coqBool(in.Client != "none"), coqBool(in.Client == "file"),
@@ -1021,16 +1152,28 @@ func c10Gen(r *rand.Rand) c10Input {
 	}
 	// scripts
 	forever := false
+	fileClean := r.IntN(5) < 2
 	for _, nm := range declared {
 		s := c10Script{Name: nm}
 		if in.Client == "file" {
-			if r.IntN(5) != 0 {
-				s.Tail = c10Ans{Ver: 1 + uint32(r.IntN(9)), Val: 1 + r.IntN(c10MaxTok)}
-			} else {
-				s.Tail = c10Ans{Err: "notfound"}
-				forever = true
+			// the name's member of the file: usable (binary, text, both), one of the unusable kinds, or absent;
+			// in "clean" files (2 of 5) every declared name is usable
+			e := c10FileEnt{Name: nm, Ver: 1 + uint32(r.IntN(9)), Val: 1 + r.IntN(c10MaxTok), TVal: 1 + r.IntN(c10MaxTok)}
+			switch k := r.IntN(20); {
+			case k < 6 || (fileClean && k < 12):
+				e.Kind = "value"
+			case k < 9 || (fileClean && k < 18):
+				e.Kind = "text"
+			case k < 10 || fileClean:
+				e.Kind = "both"
+			case k < 12:
+				e.Kind = "" // absent
+			default:
+				e.Kind = c10FileUnusable[r.IntN(len(c10FileUnusable))]
 			}
-			in.Scripts = append(in.Scripts, s)
+			if e.Kind != "" && nm != "" {
+				in.File = append(in.File, e)
+			}
 			continue
 		}
 		nfail := int(c10Pick(r, []int64{0, 0, 0, 0, 1, 1, 2, 3, 5, 8, 14}))
@@ -1114,6 +1257,24 @@ func c10Gen(r *rand.Rand) c10Input {
 			}
 		}
 	}
+	if in.Client == "file" {
+		// the file may also hold names that are only cached (polled at the probe), usable or not
+		for _, ce := range in.CacheDoc {
+			if ce.Name == "" || contains(declared, ce.Name) {
+				continue
+			}
+			switch r.IntN(5) {
+			case 0, 1:
+				in.File = append(in.File, c10FileEnt{Name: ce.Name, Kind: "value", Ver: 1 + uint32(r.IntN(9)), Val: 1 + r.IntN(c10MaxTok)})
+			case 2:
+				in.File = append(in.File, c10FileEnt{Name: ce.Name, Kind: c10FileUnusable[r.IntN(len(c10FileUnusable))], Ver: 1 + uint32(r.IntN(9)), Val: 1 + r.IntN(c10MaxTok), TVal: 2})
+			}
+		}
+		r.Shuffle(len(in.File), func(i, j int) { in.File[i], in.File[j] = in.File[j], in.File[i] })
+		if len(in.File) > 0 && r.IntN(25) == 0 {
+			in.File[r.IntN(len(in.File))].Kind = "vernegative"
+		}
+	}
 	if in.Client == "file" && in.DeadlineUs < 0 {
 		// a file client must fail at once; the deadline only bounds a store that would keep retrying
 		in.DeadlineUs = 10000500
@@ -1124,17 +1285,7 @@ func c10Gen(r *rand.Rand) c10Input {
 	for _, e := range in.CacheDoc {
 		known = append(known, e.Name)
 	}
-	if in.Client == "file" {
-		for _, nm := range c10Distinct(known) {
-			p := c10ProbeEnt{Name: nm, Absent: true}
-			for _, s := range in.Scripts {
-				if s.Name == nm && s.Tail.Ver != 0 {
-					p = c10ProbeEnt{Name: nm, Ver: s.Tail.Ver, Val: s.Tail.Val}
-				}
-			}
-			in.Probe = append(in.Probe, p)
-		}
-	} else {
+	if in.Client != "file" { // (a file client answers the probe poll from its file)
 		for _, nm := range c10Distinct(known) {
 			if contains(c10StructNames(in), nm) {
 				continue
@@ -1186,6 +1337,32 @@ func contains(xs []string, x string) bool {
 
 func c10Tags(in c10Input, obs c10Obs) []string {
 	tags := []string{"client=" + in.Client, "cache=" + in.Cache, "outcome=" + obs.Class}
+	if in.Client == "file" {
+		decl := c10Distinct(c10Declared(in))
+		cached := map[string]bool{}
+		if in.Cache == "doc" {
+			for _, e := range in.CacheDoc {
+				cached[e.Name] = true
+			}
+		}
+		inFile := map[string]string{}
+		for _, e := range c10File(in) {
+			inFile[e.Name] = e.Kind
+			tags = append(tags, "file-entry="+e.Kind)
+		}
+		for _, n := range decl {
+			k, ok := inFile[n]
+			switch {
+			case !ok:
+				tags = append(tags, "file:declared-name-absent")
+			case contains(c10FileUnusable, k):
+				tags = append(tags, "file:declared-name-unusable")
+				if cached[n] {
+					tags = append(tags, "file:declared-name-unusable-but-cached")
+				}
+			}
+		}
+	}
 	for _, sc := range in.Scripts {
 		for _, x := range append(append([]c10Ans(nil), sc.Seq...), sc.Tail) {
 			if x.HTTP == "hang" {
